@@ -8,6 +8,8 @@ destructor-bearing objects held in fields; temporaries of destructor-bearing cla
 """
 import sys
 
+from hypothesis import strategies as st
+
 from .. import common, genclass, genprog, progrun, ref_class, ref_classic
 from ..common import Check, Failure, Scratch, Stats, hyp_search, run_workers
 
@@ -60,6 +62,150 @@ def features(p):
     return feats
 
 
+# ------------------------------------------------------------------ generic hierarchy family (own small model)
+
+@st.composite
+def generic_case(draw):
+    """A chain R0 <- C1 <- ... of classes, each generic (type parameter E) or not, each with or without a destructor and with
+    its own static counter; main constructs leaves with int / string arguments (also through diamond inference), queries the
+    counters through inherited methods, destroys objects and leaves scopes."""
+    depth = draw(st.integers(1, 4))
+    levels = [{"generic": False, "dtor": draw(st.booleans())}]
+    for _ in range(depth):
+        levels.append({"generic": draw(st.booleans()), "dtor": draw(st.integers(0, 2)) == 0})
+    actions = []
+    nobj = draw(st.integers(1, 4))
+    for k in range(nobj):
+        arg = draw(st.sampled_from(["int", "string"]))
+        actions.append(["new", k, arg, draw(st.booleans()), draw(st.integers(0, 9)), draw(st.integers(0, 3)) == 0])
+        for _ in range(draw(st.integers(0, 2))):
+            actions.append(["cnt", k, draw(st.integers(0, depth))])
+        if draw(st.booleans()):
+            actions.append(["destroy", k])
+    return {"kind": "generic", "levels": levels, "actions": actions, "block": draw(st.booleans())}
+
+
+def generic_program(case):
+    lv = case["levels"]
+    out = ["static class Tr { public static int ticks = 0; public static function tr(string s, int v) -> int { echo(s + v); return v; } "
+           "public static function next() -> int { ticks = ticks + 1; return ticks; } }"]
+    n = len(lv)
+    for i, c in enumerate(lv):
+        name = f"C{i}"
+        head = f"class {name}" + ("<E>" if c["generic"] else "")
+        self_t = name + ("<E>" if c["generic"] else "")
+        if i > 0:
+            b = lv[i - 1]
+            head += f" extends C{i - 1}" + (("<E>" if c["generic"] else "<int>") if b["generic"] else "")
+        body = []
+        if i == 0:
+            body.append("public final int id = Tr.next();")
+        if c["generic"]:
+            body.append("public E v;")
+        body.append(f"public static int made{i} = 0;")
+        bgen = i > 0 and lv[i - 1]["generic"]
+        count = f"made{i} = made{i} + 1; Tr.tr(\"C{i}.ctor#\", this.id);"
+        if c["generic"]:
+            # two constructors: (E v) forwards v to a generic base, () uses the base's no-argument constructor
+            sup_v = ("super(v); " if bgen else "super(); ") if i > 0 else ""
+            sup_0 = "super(); " if i > 0 else ""
+            body.append(f"public constructor(E v) -> {self_t} {{ {sup_v}this.v = v; {count} }}")
+            body.append(f"public constructor() -> {self_t} {{ {sup_0}{count} }}")
+        else:
+            # a non-generic class below a generic one instantiates it with <int>.  super(7) there is the recorded finding
+            # C08 generic-base-args (the analyser ignores the type arguments of 'extends'); generated cases use super()
+            sup = ""
+            if i > 0:
+                sup = "super(7); " if (bgen and case.get("typed_super")) else "super(); "
+            body.append(f"public constructor() -> {self_t} {{ {sup}{count} }}")
+        body.append(f"public function cnt{i}() -> int {{ return made{i}; }}")
+        if c["dtor"]:
+            body.append(f"public destructor() -> void {{ Tr.tr(\"~C{i}#\", this.id); }}")
+        out.append(head + " {\n    " + "\n    ".join(body) + "\n}")
+    leaf = lv[-1]
+    main = []
+    for a in case["actions"]:
+        if a[0] == "new":
+            _, k, arg, diamond, val = a[:5]
+            lit = str(val) if arg == "int" else f'"s{val}"'
+            if leaf["generic"]:
+                t = f"C{n - 1}<{arg}>"
+                if a[5] if len(a) > 5 else False:
+                    lit = ""
+                rhs = f"new C{n - 1}<>({lit})" if diamond else f"new {t}({lit})"
+            else:
+                t = f"C{n - 1}"
+                rhs = f"new {t}()"
+            main.append(f"{t} o{k} = {rhs};")
+        elif a[0] == "cnt":
+            main.append(f"echo(o{a[1]}.cnt{a[2]}());")
+        else:
+            main.append(f"destroy o{a[1]};")
+    if case["block"]:
+        body = "    {\n        " + "\n        ".join(main) + "\n    }\n    echo(\"end\");"
+    else:
+        body = "    " + "\n    ".join(main) + "\n    echo(\"end\");"
+    return "\n".join(out) + "\nfunction main() -> void {\n" + body + "\n}\n"
+
+
+def generic_expected(case):
+    lv = case["levels"]
+    n = len(lv)
+    statics = {}
+    out = []
+    objs = {}
+    nid = 0
+    alive = []
+
+    def inst_args(arg):
+        """type argument of every level's instantiation for an object whose leaf argument is `arg`"""
+        args = [None] * n
+        cur = arg if lv[-1]["generic"] else None
+        args[n - 1] = cur
+        for i in range(n - 1, 0, -1):
+            if lv[i - 1]["generic"]:
+                cur = cur if lv[i]["generic"] else "int"
+            else:
+                cur = None
+            args[i - 1] = cur
+        return args
+
+    def die(k):
+        o = objs[k]
+        if o["dead"]:
+            return
+        o["dead"] = True
+        for i in range(n - 1, -1, -1):
+            if lv[i]["dtor"]:
+                out.append(f"~C{i}#{o['id']}")
+
+    for a in case["actions"]:
+        if a[0] == "new":
+            _, k, arg, diamond, val = a[:5]
+            nid += 1
+            args = inst_args(arg)
+            objs[k] = {"id": nid, "args": args, "dead": False}
+            alive.append(k)
+            for i in range(n):
+                statics[(i, args[i])] = statics.get((i, args[i]), 0) + 1
+                out.append(f"C{i}.ctor#{nid}")
+        elif a[0] == "cnt":
+            o = objs[a[1]]
+            if o["dead"]:
+                return None  # use after destroy: null reference, not generated on purpose -> skip case
+            out.append(str(statics[(a[2], o["args"][a[2]])]))
+        else:
+            die(a[1])
+    tail = []
+    for k in alive:
+        if not objs[k]["dead"]:
+            o = objs[k]
+            tail += [f"~C{i}#{o['id']}" for i in range(n - 1, -1, -1) if lv[i]["dtor"]]
+    if case["block"]:
+        return out + tail + ["end"]
+    return out + ["end"] + tail
+
+
 class C08(Check):
     prop = "C08"
     rule = ("class programs: hierarchies (depth<=4), tracing field initialisers, constructors with explicit/implicit super, "
@@ -70,7 +216,39 @@ class C08(Check):
     assumptions = ["pbt/ref_class.py encodes the documented object model", "numeric tokens compared with rel. tolerance 1e-5"]
     floors = {"__nontrivial__": (600, 12000), "override": (400, 8000), "dtor": (300, 6000)}
 
+    def classify(self, case, why=None):
+        if isinstance(case, dict) and case.get("kind") == "generic" and case.get("typed_super") and isinstance(why, dict) \
+                and "no accessible base constructor matches" in str(why.get("why")):
+            return "generic-base-args"
+        return None
+
+    def generic_run(self, case, sc, stats=None):
+        want = generic_expected(case)
+        if want is None:
+            return None
+        src = generic_program(case)
+        r = progrun.run_cli(self.drv, sc, src)
+        if r.proc.timeout:
+            return None
+        if stats is not None:
+            ng = sum(1 for c in case["levels"] if c["generic"])
+            stats.record(case, ng >= 1 and len(case["levels"]) >= 3, tags=["generic_family"] + (["generic_with_inherited_dtor"] if any(
+                c["generic"] and not c["dtor"] for c in case["levels"][1:]) and any(c["dtor"] for c in case["levels"]) else []),
+                         sample={"source": src, "expected": want} if len(src) < 1800 else None)
+        if r.diag and r.diag["cat"] in ("Lexical", "Parse", "Semantic"):
+            return {"why": f"generic hierarchy program rejected: {r.diag}", "source": src}
+        if r.proc.crashed() or r.rc != 0:
+            return {"why": f"generic hierarchy program failed: rc={r.rc} {r.stderr_lines[-1:]}", "source": src, **r.proc.brief()}
+        got, want = progrun.canon_dtor_runs(r.stdout_lines), progrun.canon_dtor_runs(want)
+        if got != want:
+            k = next((i for i, (a, b) in enumerate(zip(got, want)) if a != b), min(len(got), len(want)))
+            return {"why": f"generic hierarchy trace differs at line {k}: expected {want[k:k + 3]}, got {got[k:k + 3]}",
+                    "expected": want, "got": got, "source": src}
+        return None
+
     def run_case(self, p, sc, stats=None):
+        if p.get("kind") == "generic":
+            return self.generic_run(p, sc, stats)
         try:
             ref = ref_class.run_reference(p)
         except ref_classic.Undocumented:
@@ -122,6 +300,9 @@ def _worker(widx, wseed, tier, check):
             if why is not None:
                 raise Failure(why)
         f = hyp_search(genclass.class_program(), prop, wseed, 250 if tier == "quick" else 5000, stats)
+        if f:
+            failures.append(f)
+        f = hyp_search(generic_case(), prop, common.derive_seed(wseed, "generic"), 120 if tier == "quick" else 3000, stats)
         if f:
             failures.append(f)
     return {"stats": stats.export(), "failures": failures}
